@@ -6,7 +6,11 @@ import (
 	"go/constant"
 	"go/token"
 	"go/types"
+	"os"
+	"path/filepath"
 	"strings"
+
+	"golang.org/x/tools/go/packages"
 
 	"govc/smt"
 	"govc/spec"
@@ -154,14 +158,22 @@ func (e *Engine) call(fr *frame, st *State, c *ast.CallExpr, k func(st *State, r
 			}
 			e.evalList(fr, st, c.Args, func(st *State, vs []Val) {
 				parts := []*sx.T{vs[0].bytes()}
+				var inRange []*sx.T
 				for _, v := range vs[1:] {
 					if v.Ty.K == spec.KInt {
 						parts = append(parts, byteTerm(v))
+						if !isNumeral(v.T) {
+							inRange = append(inRange, sx.App("<=", sx.Int(0), v.T), sx.App("<=", v.T, sx.Int(255)))
+						}
 					} else {
 						parts = append(parts, v.bytes())
 					}
 				}
-				k(st, []Val{nbv(cat(parts...))})
+				if len(inRange) == 0 {
+					k(st, []Val{nbv(cat(parts...))})
+					return
+				}
+				e.guard(fr, st, sx.And(inRange...), "value appended to a byte buffer is not a byte", func(st *State) { k(st, []Val{nbv(cat(parts...))}) })
 			})
 		case "panic":
 			e.fault(fr, st, "panic")
@@ -283,13 +295,30 @@ func (e *Engine) call(fr *frame, st *State, c *ast.CallExpr, k func(st *State, r
 	case has(full, "interop/runtime.Notify"):
 		e.evalList(fr, st, c.Args[1:], func(st *State, vs []Val) {
 			ev := spec.Event{Name: constant.StringVal(info.Types[c.Args[0]].Value)}
-			for _, v := range vs {
+			var typed []*sx.T
+			decl := e.eventTypes(fr.pkg)[ev.Name]
+			for i, v := range vs {
 				ev.Args = append(ev.Args, v.T)
 				ev.Sorts = append(ev.Sorts, v.Ty.Sort())
+				// the VM checks the arguments against the types the manifest declares for the event: a fixed-size type
+				// accepts Null or exactly that many bytes, otherwise System.Runtime.Notify faults
+				if i < len(decl) && v.Ty.K == spec.KNB {
+					n := map[string]int{"hash160": 20, "hash256": 32, "publickey": 33}[strings.ToLower(decl[i])]
+					if n > 0 {
+						typed = append(typed, sx.Or(sx.App("isnull", v.T), sx.App("=", sx.App("str.len", v.bytes()), sx.Int(int64(n)))))
+					}
+				}
 			}
-			st.notifs.Items = append(st.notifs.Items, ev)
-			st.dirty = true
-			k(st, nil)
+			emit := func(st *State) {
+				st.notifs.Items = append(st.notifs.Items, ev)
+				st.dirty = true
+				k(st, nil)
+			}
+			if len(typed) == 0 {
+				emit(st)
+				return
+			}
+			e.guard(fr, st, sx.And(typed...), "notification argument does not fit the type declared in the manifest", emit)
 		})
 		return
 	case has(full, "interop/runtime.CheckWitness"):
@@ -1348,4 +1377,39 @@ func (e *Engine) checkOverflow(fr *frame, st *State, typed ast.Expr, r Val) {
 	_ = line
 	g := sx.And(sx.App("<=", sx.IntS(lo), r.T), sx.App("<=", r.T, sx.IntS(hi)))
 	fr.ver.add(base+"#nooverflow", nil, "every + - * ++ -- on a fixed-width integer stays within its type ("+b.Name()+")", fr.ver.query(st, nil, g))
+}
+
+// eventTypes reads the parameter types of the events declared in the package's config.yml (name -> types).
+func (e *Engine) eventTypes(pkg *packages.Package) map[string][]string {
+	if e.evTypes == nil {
+		e.evTypes = map[string]map[string][]string{}
+	}
+	if m, ok := e.evTypes[pkg.PkgPath]; ok {
+		return m
+	}
+	m := map[string][]string{}
+	e.evTypes[pkg.PkgPath] = m
+	if len(pkg.GoFiles) == 0 {
+		return m
+	}
+	b, err := os.ReadFile(filepath.Join(filepath.Dir(pkg.GoFiles[0]), "config.yml"))
+	if err != nil {
+		return m
+	}
+	in, cur := false, ""
+	for _, ln := range strings.Split(string(b), "\n") {
+		t := strings.TrimSpace(ln)
+		switch {
+		case strings.HasPrefix(ln, "events:"):
+			in = true
+		case in && len(ln) > 0 && ln[0] != ' ' && ln[0] != '-':
+			in = false
+		case in && strings.HasPrefix(t, "- name:") && strings.HasPrefix(ln, "  - name:"):
+			cur = strings.TrimSpace(strings.TrimPrefix(t, "- name:"))
+			m[cur] = nil
+		case in && cur != "" && strings.HasPrefix(t, "type:") && strings.HasPrefix(ln, "        type:"):
+			m[cur] = append(m[cur], strings.TrimSpace(strings.TrimPrefix(t, "type:")))
+		}
+	}
+	return m
 }
